@@ -44,3 +44,26 @@ const (
 	ShadeDark Shade = iota
 	ShadeLight
 )
+
+// Inner scopes that reuse the names of the bound package-level objects (types Money, Point,
+// Shade and the enum constants ShadeDark / ShadeLight).
+func ParseLegacy(Money string) (Point int) {
+	{
+		type Money struct{ Cents int }
+		type Point struct{ Lat, Lng float64 }
+		type Shade string
+		const ShadeDark Shade = "dark"
+		var ShadeLight = Shade("light")
+		m, p := Money{Cents: 1}, Point{Lat: 1}
+		_, _, _, _ = m, p, ShadeDark, ShadeLight
+	}
+	return len(Money)
+}
+
+type Swatch struct {
+	Shade Shade
+	Point Point
+	Money Money
+}
+
+func (s Swatch) ShadeDark(Shade Shade) (Money Money) { return s.Money }
